@@ -10,6 +10,7 @@
    implementation by oracles.c03 (partial). *)
 From Coq Require Import QArith Qminmax List Arith.
 Require Import SP.Model.Ledger SP.Proofs.LedgerProofs SP.Model.Sched SP.Proofs.SchedWalk SP.Proofs.SchedFinal.
+Require Import SP.Model.Alap SP.Proofs.AlapProofs.
 Import ListNotations.
 
 Theorem C03_exact_slots : forall p t f e,
@@ -25,3 +26,12 @@ Theorem C03_release : forall t need l l' booked kept,
   (total l' == total l - booked + kept)%Q /\ (0 <= kept)%Q /\ (kept <= booked)%Q /\ (kept <= need)%Q.
 Proof. intros t need l l' booked kept H1 H2 H3. destruct (release_last_spec _ _ _ _ _ _ H1 H2 H3) as (A & B & C & D & _). repeat split; assumption. Qed.
 Print Assumptions C03_release.
+
+(* ---- backward (ALAP) mode: the project record is read backwards (Model/Alap.v: t_deps = successor edges,
+   t_pin = own end, t_lb = earliest deadline of the enclosing containers, n = p_upper slots) and the schedule
+   is the mirror image of the forward schedule of the mirrored project *)
+Theorem C03_alap : forall p t f e, alap_leaf_dates p t = Some (f, e) -> t_need (task_of p t) <> 0%nat ->
+  exists ss, length ss = t_need (task_of p t) /\
+             filter (fun x => Nat.eqb (b_task x) t) (alap_bookings p) = concat (map (block p t) ss).
+Proof. exact alap_exact_slots. Qed.
+Print Assumptions C03_alap.
